@@ -225,6 +225,7 @@ def post(recs, cases):
 SPEC = {
     'lean': ['C07', 'NatSemIO'],
     'cases': cases,
+    'big': True,
     'stream': 'C07 bind-tree stream',
     'rule': 'random bind trees (depth ≤ 4 / 6, left- and right-nested, continuations that ignore / print / return their '
             'argument, handlers present / absent, throwing actions) × 8 stdin contents (empty, with / without final newline, '
